@@ -3,6 +3,7 @@ C03 for SMTWTP: the reward computed by gather / `cumsum` / clamp / multiply / su
 weighted tardiness Σ_a w_a · max(0, C_a − d_a) of the executed job order (C_a = completion time of
 job `a` when the jobs are processed back to back from time 0), for EVERY action list and all data.
 -/
+import Rl4co.Proofs.TspfamAvail
 import Rl4co.Env.Smtwtp
 import Rl4co.Proofs.TspfamParams
 import Rl4co.Spec.Smtwtp
@@ -34,3 +35,53 @@ example : reward ⟨3, fun j => [0, 2, 3, 1].getD j 0, fun j => [0, 2, 4, 9].get
     [2, 1, 3] = -3 := by decide
 
 end Rl4co.Smtwtp
+
+/-! ### Spec-level sanity -/
+namespace Rl4co.Spec.Smtwtp
+
+/-- with non-negative weights the weighted tardiness is non-negative -/
+theorem wtFrom_nonneg (p d w : Nat → Int) (hw : ∀ a, 0 ≤ w a) (t : Int) (as : List Nat) :
+    0 ≤ wtFrom p d w t as := by
+  induction as generalizing t with
+  | nil => simp [wtFrom]
+  | cons a as ih =>
+    simp only [wtFrom]
+    have h1 : 0 ≤ w a * max 0 (t + p a - d a) := Int.mul_nonneg (hw a) (by omega)
+    have := ih (t + p a)
+    omega
+
+theorem objective_nonneg (p d w : Nat → Int) (hw : ∀ a, 0 ≤ w a) (as : List Nat) : 0 ≤ objective p d w as :=
+  wtFrom_nonneg p d w hw 0 as
+
+/-- a schedule in which no job is late costs nothing -/
+theorem wtFrom_zero_of_on_time (p d w : Nat → Int) (hp : ∀ a, 0 ≤ p a) (t : Int) (as : List Nat)
+    (hd : ∀ a ∈ as, t + (as.map p).sum ≤ d a) : wtFrom p d w t as = 0 := by
+  induction as generalizing t with
+  | nil => rfl
+  | cons a as ih =>
+    simp only [wtFrom]
+    have hsum : 0 ≤ (as.map p).sum := by
+      clear ih hd
+      induction as with
+      | nil => simp
+      | cons b bs ihb => simp only [List.map_cons, List.sum_cons]; have := hp b; omega
+    have ha := hd a (by simp)
+    simp only [List.map_cons, List.sum_cons] at ha
+    have hmax : max 0 (t + p a - d a) = 0 := by omega
+    rw [hmax, Int.mul_zero, Int.zero_add]
+    apply ih
+    intro b hb
+    have := hd b (by simp [hb])
+    simp only [List.map_cons, List.sum_cons] at this
+    omega
+
+/-- a single job: `w · max(0, p − d)` -/
+theorem objective_single (p d w : Nat → Int) (a : Nat) : objective p d w [a] = w a * max 0 (p a - d a) := by
+  simp [objective, wtFrom]
+
+/-- a schedule exists for every number of jobs -/
+theorem feasible_range' (n : Nat) : Feasible n (List.range' 1 n) := by
+  obtain ⟨h1, h2⟩ := (Rl4co.Tspfam.once_iff_perm n _).mpr (List.Perm.refl _)
+  exact ⟨h1, h2⟩
+
+end Rl4co.Spec.Smtwtp
